@@ -1642,6 +1642,29 @@ pub open spec fn fired_in_views(gv: Seq<MappingV>, pressed: Seq<KeyCode>, absorb
 {
   if gv.len() == 0 { None } else if supported_set(gv.last().from, pressed, absorbed, k) { Some(gv.last()) } else { fired_in_views(gv.drop_last(), pressed, absorbed, k) }
 }
+pub proof fn lemma_layout_fired_sound(ms: Seq<Mapping>, pressed: Seq<KeyCode>, absorbed: Set<KeyCode>, k: KeyCode)
+  ensures match layout_fired(ms, pressed, absorbed, k) { Some(mv) => supported_set(mv.from, pressed, absorbed, k) && mv.from.len() >= 1 && mv.from.last() == k, None => true }
+  decreases ms.len()
+{
+  if ms.len() > 0 { lemma_layout_fired_sound(ms.drop_last(), pressed, absorbed, k); }
+}
+// the mapping that fires is (the view of) a mapping of the layout
+pub proof fn lemma_fired_in_layout(ms: Seq<Mapping>, pressed: Seq<KeyCode>, absorbed: Set<KeyCode>, k: KeyCode)
+  ensures match layout_fired(ms, pressed, absorbed, k) { Some(mv) => exists|i: int| 0 <= i < ms.len() && mview(#[trigger] ms[i]) == mv, None => true }
+  decreases ms.len()
+{
+  if ms.len() > 0 {
+    lemma_fired_in_layout(ms.drop_last(), pressed, absorbed, k);
+    match layout_fired(ms, pressed, absorbed, k) {
+      Some(mv) => {
+        let m = ms.last();
+        if m.from@.len() >= 1 && m.from@.last() == k && supported_set(m.from@, pressed, absorbed, k) { assert(mview(ms[ms.len() - 1]) == mv); }
+        else { let i = choose|i: int| 0 <= i < ms.drop_last().len() && mview(#[trigger] ms.drop_last()[i]) == mv; assert(ms[i] == ms.drop_last()[i]); }
+      },
+      None => {},
+    }
+  }
+}
 pub proof fn lemma_layout_fired_group(ms: Seq<Mapping>, pressed: Seq<KeyCode>, absorbed: Set<KeyCode>, k: KeyCode)
   ensures layout_fired(ms, pressed, absorbed, k) == fired_in_views(group_of(ms, k), pressed, absorbed, k)
   decreases ms.len()
@@ -2750,6 +2773,51 @@ impl Mapper {
   pub closed spec fn absorbed_view(&self) -> Seq<KeyCode> { self.state.mapped_absorbed_keys@ }
   pub closed spec fn absorbing_trigger_view(&self) -> Option<KeyCode> { self.state.absorbing_trigger }
 
+  /// C08 in public vocabulary: what a (new) press of k does to the absorbed keys
+  pub open spec fn c08_press(o: Mapper, n: Mapper, k: KeyCode) -> bool {
+    match o.gfired(k) {
+      Some(mv) => {
+        &&& (forall|a: KeyCode| #[trigger] mv.absorbing.contains(a) ==> n.absorbed_view().contains(a))
+        &&& (mv.absorbing.len() > 0 ==> n.absorbing_trigger_view() == Some(k))
+        &&& (forall|x: KeyCode| #[trigger] n.absorbed_view().contains(x) ==> (o.absorbed_view().contains(x) && x != k) || mv.absorbing.contains(x))
+        &&& (if has_action(mv.to) && o.absorbing_trigger_view() != Some(k) {
+               (forall|d: KeyCode| #[trigger] o.absorbed_view().contains(d) && d != k ==> !n.pressed_view().contains(d))
+               && (forall|x: KeyCode| #[trigger] n.absorbed_view().contains(x) ==> mv.absorbing.contains(x)) && (mv.absorbing.len() == 0 ==> n.absorbing_trigger_view() is None)
+             } else {
+               (forall|x: KeyCode| #[trigger] o.absorbed_view().contains(x) && x != k ==> n.absorbed_view().contains(x)) && (mv.absorbing.len() == 0 ==> n.absorbing_trigger_view() == o.absorbing_trigger_view())
+             })
+      },
+      None => if o.mentions(k) || is_mod(k) {
+          (forall|x: KeyCode| #[trigger] o.absorbed_view().contains(x) && x != k ==> n.absorbed_view().contains(x)) && n.absorbing_trigger_view() == o.absorbing_trigger_view()
+          && (forall|x: KeyCode| #[trigger] n.absorbed_view().contains(x) ==> o.absorbed_view().contains(x) && x != k)
+        } else {
+          n.absorbed_view().len() == 0 && n.absorbing_trigger_view() is None && (forall|d: KeyCode| #[trigger] o.absorbed_view().contains(d) && d != k ==> !n.pressed_view().contains(d))
+        },
+    }
+  }
+  /// the only keys a press step presses: the outputs of the fired mapping, or the key itself when passed through
+  pub open spec fn press_scope(o: Mapper, k: KeyCode, evs: Seq<Event>) -> bool {
+    match o.gfired(k) {
+      Some(mv) => forall|x: KeyCode| #[trigger] evs.contains(Event::Pressed(x)) ==> mv.to.contains(x),
+      None => forall|x: KeyCode| #[trigger] evs.contains(Event::Pressed(x)) ==> x == k,
+    }
+  }
+  pub proof fn lemma_eff(&self, k: KeyCode, x: KeyCode)
+    ensures self.eff_absorbed(k).contains(x) <==> (self.absorbing_trigger_view() != Some(k) && self.absorbed_view().contains(x) && x != k)
+  { lemma_ts(self.state.mapped_absorbed_keys@, x); }
+  /// a key that is not considered pressed is held on the virtual keyboard only as an output key of a mapping in effect
+  pub proof fn lemma_not_pressed_held(&self, d: KeyCode)
+    requires self.inv(), !self.pressed_view().contains(d), self.held_view().contains(d)
+    ensures exists|j: int| 0 <= j < self.active_view().len() && (#[trigger] self.active_view()[j]).to.contains(d)
+  {
+    let st = self.state;
+    lemma_ts(st.pass_through_keys@, d); lemma_ts(st.mapped_output_keys@, d);
+    assert(!st.pass_through_keys@.contains(d));
+    assert(out_of(st.active_mappings@, d));
+    let j = choose|j: int| 0 <= j < st.active_mappings@.len() && #[trigger] st.active_mappings@[j].to@.contains(d);
+    assert(self.active_view()[j] == mview(st.active_mappings@[j]));
+  }
+
   /// C03 / C08: the group scan selects exactly the last-listed mapping of the layout whose final trigger key is k and whose trigger keys are all pressed and not absorbed
   pub proof fn lemma_gfired(&self, l: Layout, k: KeyCode)
     requires self.inv(), self.grouped_from(l)
@@ -2892,6 +2960,11 @@ impl Mapper {
           Some(mv) => final(self).active_view().len() >= 1 && final(self).active_view().last() == mv && fire_post(mv, res.events@, final(self).held_view()),
           None => if old(self).mentions(k) { res.events@.len() == 0 } else { res.events@.len() >= 1 && res.events@.last() == Event::Pressed(k) && final(self).held_view().contains(k) } }),
         _ => true },
+      //@ C08 | absorbed keys across a step: a release leaves the absorbed list and its trigger alone; a new press changes them as C08 prescribes (the pressed key stops being absorbed, the fired mapping's absorbing list is absorbed with the pressed key as trigger, and when a non-modifier key goes onto the virtual keyboard and the pressed key is not the absorbing trigger every key absorbed before is lifted and forgotten)
+      match input { Event::Pressed(k) => !old(self).pressed_view().contains(k) ==> Mapper::c08_press(*old(self), *final(self), k),
+                    Event::Released(k) => final(self).absorbed_view() == old(self).absorbed_view() && final(self).absorbing_trigger_view() == old(self).absorbing_trigger_view() },
+      //@ C08 C04 C05 | the only keys a press step presses are output keys of the fired mapping, or the pressed key itself when it is passed through
+      match input { Event::Pressed(k) => !old(self).pressed_view().contains(k) ==> Mapper::press_scope(*old(self), k, res.events@), _ => true },
     { //@ | body
     broadcast use Mapper::lemma_rest;
     let state = &mut self.state;
@@ -2899,7 +2972,7 @@ impl Mapper {
     match input {
       Pressed(k) => {
         if !state.input_pressed_keys.contains(&k) {
-          proof { let g = group(self.layout, k); lemma_scan(g, self.state, k, g.len() as int); reveal(c03_fire); reveal(c07_fire); reveal(ip_kept); }
+          proof { let g = group(self.layout, k); lemma_scan(g, self.state, k, g.len() as int); reveal(c03_fire); reveal(c07_fire); reveal(ip_kept); reveal(c08_np); reveal(c08_pre); reveal(only_presses); }
           newly_press(self, k)
         }
         else {
@@ -2948,6 +3021,8 @@ impl Mapper {
       all_released(events@),
       //@ C02 C03 C05 | the grouped copy of the layout is never modified
       forall|l: Layout| #[trigger] old(self).grouped_from(l) ==> final(self).grouped_from(l),
+      //@ C08 C06 | release-all leaves the absorbed list and its trigger alone (they are inert once nothing is pressed)
+      final(self).absorbed_view() == old(self).absorbed_view() && final(self).absorbing_trigger_view() == old(self).absorbing_trigger_view(),
     { //@ | body
     broadcast use Mapper::lemma_rest;
     let to_release = self.state.input_pressed_keys.clone();
@@ -2959,6 +3034,7 @@ impl Mapper {
     for k in it: to_release
       invariant
         forall|l: Layout| #[trigger] old(self).grouped_from(l) ==> self.grouped_from(l),
+        self.absorbed_view() == old(self).absorbed_view() && self.absorbing_trigger_view() == old(self).absorbing_trigger_view(),
         //@ C01 C02 | inclusion invariant J (every held output key is justified by what is pressed)
         self.inv(),
         //@ C19 | bookkeeping equals the fold of the emitted events; no redundant press or release
